@@ -373,7 +373,10 @@ func e2Search(c *run.Ctx, prop string, r *e2Runner, depth int) {
 					c.Outcome("violation|" + sig)
 					continue // do not extend a violating path
 				}
-				k := key(loop, ns.stack, len(path))
+				// The future of the token loop depends on its locals and the input stack only, but the balance oracle
+				// looks at the output as a whole: two paths may be merged only if they also leave the same elements
+				// open in the output.
+				k := key(loop, ns.stack, len(path)) + "|" + strings.Join(outputOpenStack(out), ">")
 				if !haveLoop {
 					k = doc
 				}
@@ -513,6 +516,24 @@ func judgeE2C08(v *spec.View, st, ns *e2State, tk wTok, idx int, delta string) (
 		}
 	}
 	return "", ""
+}
+
+// outputOpenStack: the elements the output leaves open (as the balance monitor reads it).
+func outputOpenStack(out string) []string {
+	var stk []string
+	for _, t := range obs.Retok(out) {
+		switch t.Type {
+		case html.StartTagToken:
+			if !obs.IsVoid(t.Name) {
+				stk = append(stk, t.Name)
+			}
+		case html.EndTagToken:
+			if !obs.IsVoid(t.Name) && len(stk) > 0 {
+				stk = stk[:len(stk)-1]
+			}
+		}
+	}
+	return stk
 }
 
 func judgeE2C09(ns *e2State, out string) (string, string) {
